@@ -4,6 +4,7 @@ package main
 // trigger profile = clean profile + exactly one injected trigger.
 
 import (
+	"fmt"
 	"verif/harness/internal/rng"
 )
 
@@ -581,6 +582,51 @@ func (g *G) span() Span {
 	return s
 }
 
+// nearAttrs: a deep copy of an attribute list in which exactly ONE value differs (identities
+// that a comparison must still tell apart: a comparator that loses its place after an equal nested
+// map or array merges them).
+func (g *G) nearAttrs(a Attrs) (Attrs, bool) {
+	if len(a) == 0 {
+		return a, false
+	}
+	c := cloneAttrs(a)
+	j := g.r.Intn(len(c))
+	if len(c) > 1 && g.r.Chance(2, 3) {
+		j = 1 + g.r.Intn(len(c)-1) // prefer a later attribute
+	}
+	switch v := &c[j].V; v.K {
+	case KStr:
+		v.S += "~"
+	case KBool:
+		v.B = !v.B
+	case KInt:
+		v.I++
+	case KBytes:
+		v.Y = append(v.Y, 0x7e)
+	default:
+		*v = AV{K: KStr, S: "near-" + g.str()}
+	}
+	return c, true
+}
+
+// mapFirstAttrs: a nested map (or an array holding one) of several entries first, plain attributes after
+// it - the shape on which a comparator that reuses scratch space across nesting levels goes wrong.
+func (g *G) mapFirstAttrs() Attrs {
+	n := 2 + g.r.Intn(3)
+	g.inMap++
+	m := AV{K: KMap, KV: g.attrsN(n, 0)}
+	g.inMap--
+	first := m
+	if g.allowArrays && g.r.Chance(1, 3) {
+		first = AV{K: KSlice, Arr: []AV{m}}
+	}
+	a := Attrs{{"k8s.labels", first}}
+	for i, k := range []string{"pod.name", "pod.ip", "zone", "rack"}[:1+g.r.Intn(4)] {
+		a = append(a, KVp{k, AV{K: KStr, S: fmt.Sprintf("v%d-%s", i, g.str())}})
+	}
+	return a
+}
+
 func (g *G) traces() Traces {
 	nRes, nSc := 1+g.r.Intn(3), 1+g.r.Intn(3)
 	type resID struct {
@@ -593,11 +639,23 @@ func (g *G) traces() Traces {
 	// and map values before repo commit 679d5d5), and identities that differ only in the dropped
 	// attributes count (merged before that commit)
 	for i := 0; i < nRes; i++ {
-		resPool = append(resPool, resID{g.url(), g.attrs(), g.u32()})
+		ra := g.attrs()
+		if g.r.Chance(1, 4) {
+			ra = g.mapFirstAttrs()
+		}
+		resPool = append(resPool, resID{g.url(), ra, g.u32()})
 		if g.r.Chance(1, 3) {
 			x := resPool[len(resPool)-1]
 			x.Dropped++
 			resPool = append(resPool, x)
+		}
+		if g.r.Chance(1, 2) {
+			// identities that differ in exactly one attribute value
+			x := resPool[len(resPool)-1]
+			if na, ok := g.nearAttrs(x.Attrs); ok {
+				x.Attrs = na
+				resPool = append(resPool, x)
+			}
 		}
 	}
 	type scID struct {
@@ -607,11 +665,22 @@ func (g *G) traces() Traces {
 	}
 	var scPool []scID
 	for i := 0; i < nSc; i++ {
-		scPool = append(scPool, scID{namePool[g.r.Intn(len(namePool))], g.str(), g.url(), g.attrsN(g.r.Intn(3), 1), g.u32()})
+		sa := g.attrsN(g.r.Intn(3), 1)
+		if g.r.Chance(1, 4) {
+			sa = g.mapFirstAttrs()
+		}
+		scPool = append(scPool, scID{namePool[g.r.Intn(len(namePool))], g.str(), g.url(), sa, g.u32()})
 		if g.r.Chance(1, 3) {
 			x := scPool[len(scPool)-1]
 			x.Dropped++
 			scPool = append(scPool, x)
+		}
+		if g.r.Chance(1, 2) {
+			x := scPool[len(scPool)-1]
+			if na, ok := g.nearAttrs(x.Attrs); ok {
+				x.Attrs = na
+				scPool = append(scPool, x)
+			}
 		}
 	}
 	var t Traces
